@@ -131,7 +131,35 @@ def _first_stmt_calls(f, text):
     return False, ""
 
 
+def _mtime_rule(repo, rep):
+    """a change of the file is noticed whatever way the template was found:
+    every exit of mtime() that follows a successful look at the file returns
+    a time read from it (stat / archive entry / getmtime); the only constant
+    is the stand-in for a file that cannot be looked at"""
+    f = repo.func("chameleon.template.BaseTemplateFile.mtime")
+    rets = [r_ for r_ in ast.walk(f.node) if isinstance(r_, ast.Return)]
+    bad = []
+    for r_ in rets:
+        in_handler = False
+        a = getattr(r_, "_parent", None)
+        while a is not None and a is not f.node:
+            if isinstance(a, ast.ExceptHandler):
+                in_handler = True
+            a = getattr(a, "_parent", None)
+        v = r_.value
+        const = v is None or isinstance(v, ast.Constant)
+        if const and not in_handler:
+            bad.append(r_)
+    rep.check(len(rets) >= 3 and not bad, "R16.1", f.qualname, "mtime() "
+              "returns a time read from the file on every exit but the one "
+              "for a file that cannot be looked at (%d exits)" % len(rets),
+              construct="mtime-from-file", where=L.where(
+                  f, bad[0].lineno if bad else None),
+              detail="; ".join(src(r_) for r_ in bad))
+
+
 def _cook_check(repo, rep):
+    _mtime_rule(repo, rep)
     # must-pass-through
     for q in (BT + "render", ZT + "PageTemplate.include",
               ZT + "Macros.__getitem__", ZT + "Macros.names"):
@@ -241,6 +269,26 @@ def _conjuncts(e):
 def _retire_filter(repo, rep, f):
     site = f.qualname
     wh = L.where(f)
+    # what is retired is looked for where the entry points are published:
+    # among the instance's own attributes (setattr(self, ...) puts them
+    # into self.__dict__)
+    pops = [c for c in ast.walk(f.node) if isinstance(c, ast.Call)
+            and src(c.func) in ("self.__dict__.pop", "delattr")]
+    walked = set()
+    for lp in ast.walk(f.node):
+        if isinstance(lp, ast.For) and any(p_ in ast.walk(lp)
+                                           for p_ in pops):
+            for x in ast.walk(lp.iter):
+                if isinstance(x, ast.Attribute) and src(x.value) == "self":
+                    walked.add(x.attr)
+                if isinstance(x, ast.Call) and src(x.func) in ("vars",
+                                                               "dir") \
+                        and x.args and src(x.args[0]) == "self":
+                    walked.add("__dict__")
+    rep.check("__dict__" in walked and walked <= {"__dict__"}, "R16.2",
+              site, "stale entry points are looked for among the "
+              "instance's own attributes", construct="retire-walks-instance",
+              where=wh, detail=str(sorted(walked)))
     # the publishing prefix: setattr(self, P + name, function)
     pub = [n for n in ast.walk(f.node) if isinstance(n, ast.Call)
            and src(n.func) == "setattr" and len(n.args) == 3]
